@@ -120,8 +120,9 @@ func (f *funcChecker) run() {
 			if hadInst {
 				f.find("func.declareblocks", "DECLAREBLOCKS after the first instruction")
 			}
-			if r.Ops[0] > 1<<24 {
-				f.find("func.declareblocks", "DECLAREBLOCKS count %d implausible", r.Ops[0])
+			if r.Ops[0] > uint64(len(f.blk.Items)) {
+				f.fire("func.terminators")
+				f.find("func.terminators", "DECLAREBLOCKS = %d but the function block holds only %d records (every block needs a terminator)", r.Ops[0], len(f.blk.Items))
 				f.aborted = true
 				continue
 			}
@@ -271,9 +272,11 @@ func (f *funcChecker) isFPOrFPVec(t int) bool {
 }
 func (f *funcChecker) isPtrOrPtrVec(t int) bool { return f.kindOf(f.scalarOf(t)) == tPointer }
 
-func (f *funcChecker) bitsOf(t int) uint64 {
+func (f *funcChecker) bitsOf(t int) uint64 { return f.bitsOfD(t, 0) }
+
+func (f *funcChecker) bitsOfD(t, depth int) uint64 {
 	x := f.m.ty(t)
-	if x == nil {
+	if x == nil || depth > 8 {
 		return 0
 	}
 	switch x.kind {
@@ -286,7 +289,7 @@ func (f *funcChecker) bitsOf(t int) uint64 {
 	case tDouble:
 		return 64
 	case tVector:
-		return x.n * f.bitsOf(x.elem)
+		return x.n * f.bitsOfD(x.elem, depth+1)
 	}
 	return 0
 }
@@ -511,6 +514,9 @@ func (f *funcChecker) inst(r *bsRecord, bb int) (int, bool) {
 			case tArray, tVector:
 				cur = ct.elem
 			case tStruct:
+				if xt := m.ty(ix.ty); xt != nil {
+					tcheck(xt.kind == tInt && xt.width == 32, "GEP struct index of type %s (must be an i32 constant)", m.tyString(ix.ty))
+				}
 				if ix.v < instNum && f.vals[ix.v].cst != nil && f.vals[ix.v].cst.isInt {
 					fi := f.vals[ix.v].cst.ival
 					if fi < 0 || fi >= int64(len(ct.fields)) {
